@@ -1,6 +1,7 @@
 import KafkaModel.Model.Consumer
 import KafkaModel.Model.Producer
 import KafkaModel.Model.Net
+import KafkaModel.Lemmas.Safe
 /-!
   C13 — No broker reply can crash the client: every call returns Ok or Err.
 
@@ -484,5 +485,216 @@ theorem C13_process_responses_total {σ} (n : Nat) (resps : List FetchResponse) 
       | err e => simp
       | panic s => exact absurd rfl (h1 s)
       | diverge => exact absurd rfl h2
+
+/-! ### every client operation returns a value or an error
+
+  `Safe m` (Lemmas/Safe.lean): from every state — any metadata, any pool, any configuration — and for every behaviour of
+  the environment (what connecting, sending and *receiving* do: `env.recv` may return any bytes whatsoever as a reply, any
+  number of times), the run of `m` ends in `ok` or `err`.  -/
+
+theorem fetchMetadata_go_safe {σ} (env : Env σ) (topics : List Bytes) (corr : Int) (c : Client) :
+    ∀ hosts : List Bytes, Safe (fetchMetadata.go env topics corr c hosts) := by
+  intro hosts
+  induction hosts with
+  | nil => intro w; simp [fetchMetadata.go]; trivial
+  | cons h r ih =>
+    simp only [fetchMetadata.go]
+    refine Safe.try_bind (Safe.getConn env h) fun o ho => ?_
+    cases o with
+    | ok u =>
+      simp only []
+      refine Safe.try_bind (Safe.sendRequest env h _) fun o2 ho2 => ?_
+      cases o2 with
+      | ok u2 => exact Safe.bind (Safe.recvReply env h) fun b => Safe.decodeWith _ b
+      | err e => exact ih
+      | panic p => exact absurd ho2 (by simp [Outcome.fine])
+      | diverge => exact absurd ho2 (by simp [Outcome.fine])
+    | err e => exact ih
+    | panic p => exact absurd ho (by simp [Outcome.fine])
+    | diverge => exact absurd ho (by simp [Outcome.fine])
+
+theorem fetchMetadata_safe {σ} (env : Env σ) (topics : List Bytes) : Safe (fetchMetadata env topics) := by
+  unfold fetchMetadata
+  exact Safe.bind Safe.nextCorr fun corr => Safe.bind Safe.getClient fun c => fetchMetadata_go_safe env topics corr c _
+
+/-- **load_metadata** (and with it client creation paths, `load_metadata_all`): every metadata reply is digested or refused -/
+theorem C13_load_metadata {σ} (env : Env σ) (topics : List Bytes) : Safe (loadMetadata env topics) := by
+  unfold loadMetadata
+  refine Safe.bind (fetchMetadata_safe env topics) fun md => Safe.bind Safe.getClient fun c => ?_
+  obtain ⟨st', h⟩ := C13_update_metadata_total c.st md
+  rw [h]
+  exact Safe.modState _
+
+theorem C13_load_metadata_all {σ} (env : Env σ) : Safe (loadMetadataAll env) := by
+  unfold loadMetadataAll
+  exact Safe.bind (Safe.modState _) fun _ => C13_load_metadata env []
+
+theorem fetchOffsets_go_safe {σ} (env : Env σ) :
+    ∀ (fuel : Nat) (reqs : List (Bytes × OffsetRequest)) (res : List (Bytes × List (Int × Int))), Safe (fetchOffsets.go env fuel reqs res) := by
+  intro fuel
+  induction fuel with
+  | zero => intro reqs res; unfold fetchOffsets.go; exact Safe.pure _
+  | succ n ih =>
+    intro reqs res
+    simp only [fetchOffsets.go]
+    split
+    · exact Safe.pure _
+    · refine Safe.bind Safe.get fun w => ?_
+      split
+      · exact Safe.pure _
+      · exact Safe.bind (Safe.sendReceive env _ _ _) fun resp => Safe.bind (Safe.ofExcept _) fun res' => ih _ _
+
+/-- **fetch_offsets** -/
+theorem C13_fetch_offsets {σ} (env : Env σ) (topics : List Bytes) (time : Int) : Safe (fetchOffsets env topics time) := by
+  unfold fetchOffsets
+  exact Safe.bind Safe.nextCorr fun corr => Safe.bind Safe.getClient fun c => fetchOffsets_go_safe env _ _ _
+
+theorem listOffsets_go_safe {σ} (env : Env σ) :
+    ∀ (fuel : Nat) (reqs : List (Bytes × ListOffsetsRequest)) (res : List (Bytes × List (Int × Int × Int))), Safe (listOffsets.go env fuel reqs res) := by
+  intro fuel
+  induction fuel with
+  | zero => intro reqs res; unfold listOffsets.go; exact Safe.pure _
+  | succ n ih =>
+    intro reqs res
+    simp only [listOffsets.go]
+    split
+    · exact Safe.pure _
+    · refine Safe.bind Safe.get fun w => ?_
+      split
+      · exact Safe.pure _
+      · exact Safe.bind (Safe.sendReceive env _ _ _) fun resp => Safe.bind (Safe.ofExcept _) fun res' => ih _ _
+
+/-- **list_offsets** -/
+theorem C13_list_offsets {σ} (env : Env σ) (topics : List Bytes) (time : Int) : Safe (listOffsets env topics time) := by
+  unfold listOffsets
+  exact Safe.bind Safe.nextCorr fun corr => Safe.bind Safe.getClient fun c => listOffsets_go_safe env _ _ _
+
+/-- **fetch_topic_offsets** -/
+theorem C13_fetch_topic_offsets {σ} (env : Env σ) (topic : Bytes) (time : Int) : Safe (fetchTopicOffsets env topic time) := by
+  unfold fetchTopicOffsets
+  refine Safe.bind (C13_fetch_offsets env _ _) fun m => ?_
+  simp only []
+  split
+  · exact Safe.fail _
+  · exact Safe.pure _
+
+theorem zSendReceive_safe {σ} (env : Env σ) (validate : Bool) (host : Bytes) (rq : FetchRequest) : Safe (zSendReceive env validate host rq) := by
+  unfold zSendReceive
+  refine Safe.bind (Safe.getConn env host) fun _ => Safe.bind (Safe.sendRequest env host _) fun _ =>
+    Safe.bind (Safe.recvReply env host) fun b => ?_
+  cases h : parseFetchResponse env.codecs env.debug env.depth (some rq) validate b with
+  | ok r => exact Safe.pure _
+  | err e => exact Safe.fail _
+  | panic s => exact absurd h (C13_fetch_decode_total _ _ _ _ _ _ _)
+
+/-- **fetch_messages**: whatever each broker answers -/
+theorem C13_fetch_messages {σ} (env : Env σ) (input : List FetchArg) : Safe (fetchMessages env input) := by
+  unfold fetchMessages
+  exact Safe.bind Safe.nextCorr fun corr => Safe.bind Safe.getClient fun c =>
+    Safe.forHosts env _ (fun h a => zSendReceive_safe env _ h a) _ _
+
+/-- **produce_messages** (all acknowledgement modes) -/
+theorem C13_produce_messages {σ} (env : Env σ) (acks : Int) (toSecs toNanos : Nat) (msgs : List ProduceArg) :
+    Safe (produceMessages env acks toSecs toNanos msgs) := by
+  unfold produceMessages
+  refine Safe.bind (Safe.ofExcept _) fun to => ?_
+  unfold internalProduce
+  refine Safe.bind Safe.nextCorr fun corr => Safe.bind Safe.getClient fun c => ?_
+  split
+  · exact Safe.fail _
+  · split
+    · exact Safe.bind (Safe.forHosts env _ (fun h a => Safe.bind (Safe.getConn env h) fun _ => Safe.sendRequest env h _) _ _) fun _ => Safe.pure _
+    · exact Safe.bind (Safe.forHosts env _ (fun h a => Safe.sendReceive env h _ _) _ _) fun rs => Safe.pure _
+
+theorem coordinatorStep_safe {σ} (env : Env σ) (group : Bytes) (req : GroupCoordinatorRequest) : Safe (coordinatorStep env group req) := by
+  unfold coordinatorStep
+  refine Safe.bind Safe.get fun w => ?_
+  split
+  · exact Safe.fail _
+  · rename_i host _
+    simp only []
+    split
+    · refine Safe.bind ?_ fun _ => ?_
+      · intro w'
+        cases env.connect w'.world host with
+        | mk wd ok => trivial
+      refine Safe.bind (Safe.sendRequest env host _) fun _ => Safe.bind (Safe.recvReply env host) fun b =>
+        Safe.bind (Safe.decodeWith _ b) fun r => ?_
+      split
+      · exact Safe.bind Safe.getClient fun c => Safe.bind (Safe.modState _) fun _ => Safe.pure _
+      · exact Safe.pure _
+      · exact Safe.pure _
+    · refine Safe.bind (Safe.sendRequest env host _) fun _ => Safe.bind (Safe.recvReply env host) fun b =>
+        Safe.bind (Safe.decodeWith _ b) fun r => ?_
+      split
+      · exact Safe.bind Safe.getClient fun c => Safe.bind (Safe.modState _) fun _ => Safe.pure _
+      · exact Safe.pure _
+      · exact Safe.pure _
+
+theorem getGroupCoordinator_safe {σ} (env : Env σ) (group : Bytes) : Safe (getGroupCoordinator env group) := by
+  unfold getGroupCoordinator
+  refine Safe.bind Safe.getClient fun c => ?_
+  split
+  · exact Safe.pure _
+  · exact Safe.bind Safe.nextCorr fun corr => Safe.retrying _ _ (coordinatorStep_safe env group _) _ _ (by omega) (by omega)
+
+theorem commitStep_safe {σ} (env : Env σ) (req : OffsetCommitRequest) : Safe (commitStep env req) := by
+  unfold commitStep
+  refine Safe.bind (getGroupCoordinator_safe env _) fun host => Safe.bind (Safe.sendReceive env host _ _) fun resp => ?_
+  split
+  · exact Safe.pure _
+  · exact Safe.pure _
+  · exact Safe.bind (Safe.modState _) fun _ => Safe.pure _
+  · exact Safe.pure _
+
+/-- **commit_offsets**: any coordinator answer, any commit answer, any number of retryable codes — the call returns
+    (termination of the retry loop included: `diverge` is excluded) -/
+theorem C13_commit_offsets {σ} (env : Env σ) (group : Bytes) (offsets : List (Bytes × Int × Int)) :
+    Safe (commitOffsets env group offsets) := by
+  unfold commitOffsets
+  refine Safe.bind Safe.getClient fun c => ?_
+  split
+  · exact Safe.fail _
+  · refine Safe.bind Safe.nextCorr fun corr => ?_
+    simp only []
+    split
+    · exact Safe.fail _
+    · split
+      · exact Safe.pure _
+      · exact Safe.retrying _ _ (commitStep_safe env _) _ _ (by omega) (by omega)
+
+theorem fetchGroupStep_safe {σ} (env : Env σ) (req : OffsetFetchRequest) : Safe (fetchGroupStep env req) := by
+  unfold fetchGroupStep
+  refine Safe.bind (getGroupCoordinator_safe env _) fun host => Safe.bind (Safe.sendReceive env host _ _) fun resp => ?_
+  split
+  · exact Safe.pure _
+  · exact Safe.pure _
+  · exact Safe.bind (Safe.modState _) fun _ => Safe.pure _
+  · exact Safe.pure _
+
+/-- **fetch_group_offsets** -/
+theorem C13_fetch_group_offsets {σ} (env : Env σ) (group : Bytes) (parts : List (Bytes × Int)) :
+    Safe (fetchGroupOffsets env group parts) := by
+  unfold fetchGroupOffsets
+  refine Safe.bind Safe.getClient fun c => ?_
+  split
+  · exact Safe.fail _
+  · refine Safe.bind Safe.nextCorr fun corr => ?_
+    simp only []
+    split
+    · exact Safe.fail _
+    · exact Safe.retrying _ _ (fetchGroupStep_safe env _) _ _ (by omega) (by omega)
+
+/-- **fetch_group_topic_offset** -/
+theorem C13_fetch_group_topic_offset {σ} (env : Env σ) (group topic : Bytes) : Safe (fetchGroupTopicOffset env group topic) := by
+  unfold fetchGroupTopicOffset
+  refine Safe.bind Safe.getClient fun c => ?_
+  split
+  · exact Safe.fail _
+  · refine Safe.bind Safe.nextCorr fun corr => ?_
+    simp only []
+    split
+    · exact Safe.fail _
+    · exact Safe.bind (Safe.retrying _ _ (fetchGroupStep_safe env _) _ _ (by omega) (by omega)) fun m => Safe.pure _
 
 end Kafka.Props.C13
